@@ -348,7 +348,7 @@ def main(run, replay=None):
         files[name] = HEADER + "".join("Eval vm_compute in %s.\n" % t for _, t in terms[k:k + per])
         index.append((name, [ci for ci, _ in terms[k:k + per]]))
     coq_out = run.coq_eval_many(files, timeout=120 if quick else 400)
-    code, timeouts = {}, 0
+    code, timeouts, broken_files = {}, 0, []
     import re
     for name, own in index:
         rc, out = coq_out[name]
@@ -359,12 +359,16 @@ def main(run, replay=None):
                 for ci, b in zip(own, blocks):          # the evaluations finished before the time-out still count
                     code[ci] = [int(x) for x in b.split(";")] if b.strip() else []
                 continue
-            run.report({"kind": "cases-file"}, "generated case file did not evaluate", {"file": name, "rc": rc, "log": out[-1500:]},
-                       found_input=False, theorem_or_case=name)
+            broken_files.append({"file": name, "rc": rc, "log": out[-1500:]})
             continue
         for ci, b in zip(own, blocks):
             code[ci] = [int(x) for x in b.split(";")] if b.strip() else []
     stage["coq_cases"] = round(time.time() - t0, 1)
+
+    if broken_files:      # one report for the run (e.g. a broken load path makes every file fail the same way)
+        run.report({"kind": "cases-file"}, "%d generated case file(s) did not evaluate" % len(broken_files),
+                   {"files": broken_files[:3], "count": len(broken_files)}, found_input=False,
+                   theorem_or_case="generated case files (Coq error, not a time-out)")
 
     # ---- decide
     stats = {"kernels": 0, "regions_agree_with_model": 0, "measure_square_proved": 0, "measure_unproved": 0,
